@@ -1603,6 +1603,7 @@ func (p *parser) parseSignalGroup() (*SignalGroup, error) {
 	for {
 		t = p.scan()
 		if !t.isIdent() {
+			p.unscan()
 			break
 		}
 		sigGroup.SignalNames = append(sigGroup.SignalNames, t.value)
